@@ -1,27 +1,27 @@
 #!/usr/bin/env python3
-"""development helper (never run by a check): add known-finding entries for obligations whose violation was
-confirmed by native replay; the witness is copied from the replay file.
-usage: addknown.py <prop> <obligation-regex> <what>"""
+"""development helper (never run by a check): add ONE known-finding entry for the obligations generated from one
+defect site (regex over their names); witnesses are copied from the replay files of violations confirmed natively.
+usage: addknown.py <prop> <obligation-regex (fullmatch)> <site> <what>"""
 import glob, json, os, re, sys
 V = os.path.dirname(os.path.dirname(os.path.abspath(__file__)))
-prop, rx, what = sys.argv[1], re.compile(sys.argv[2]), sys.argv[3]
+prop, rx, site, what = sys.argv[1], sys.argv[2], sys.argv[3], sys.argv[4]
 kf = os.path.join(V, "known_findings.json")
 k = json.load(open(kf))
-have = {(f["property"], f["obligation"]) for f in k["findings"]}
 latest = {}
 for f in sorted(glob.glob(os.path.join(V, "replay", prop + "-*.json")), key=os.path.getmtime):
     d = json.load(open(f))
     latest[d["obligation"]] = d
-n = 0
+wit = []
 for ob, d in sorted(latest.items()):
-    if not rx.search(ob) or (prop, ob) in have:
+    if not re.fullmatch(rx, ob):
         continue
     ce = d.get("counterexample") or {}
     nr = d.get("native_replay") or {}
-    k["findings"].append({"property": prop, "obligation": ob, "what": what,
-                          "witness": {"harness": d.get("harness"), "inputs": ce.get("decoded"), "bytes": ce.get("values"),
-                                      "failed_check": ce.get("check") or d.get("detail"),
-                                      "native_replay": nr.get("outcome") if isinstance(nr, dict) else nr}})
-    n += 1
+    wit.append({"obligation": ob, "harness": d.get("harness"), "inputs": ce.get("decoded"), "bytes": ce.get("values"),
+                "failed_check": ce.get("check") or d.get("detail"), "native_replay": nr.get("outcome") if isinstance(nr, dict) else nr})
+if not wit:
+    sys.exit("no replay file matches: nothing added (a finding needs a witness)")
+k["findings"] = [f for f in k["findings"] if not (f["property"] == prop and f.get("obligation_regex") == rx)]
+k["findings"].append({"property": prop, "obligation_regex": rx, "site": site, "what": what, "witnesses": wit})
 json.dump(k, open(kf, "w"), indent=1, ensure_ascii=False)
-print("added", n)
+print("added 1 finding with", len(wit), "witnesses")
